@@ -1,7 +1,7 @@
 // C13 harness: formats generated messages with the real JsonFormatter.
 // input line:  <flag> <type> <msg> <fmt> <cat> <file> <fn> <line> <na> [<key> <value>]...
 //   strings are hex UTF-16 units (4 digits each); "-" = empty string; "0" = null pointer / not formatted
-//   value: n | t | f | i<qlonglong> | I<int> | d<double holding an integer> | s<hex16> | a<count> v... | o<count> (k v)...
+//   value: n | t | f | I<int> | u<uint> | i<qlonglong> | U<qulonglong> | d<double holding an integer> | F<float holding an integer> | s<hex16> | a<count> v... | o<count> (k v)...
 //   optional multi-step suffix: "|" then steps on the SAME message object
 //     S <n> (k v)*n   setAttributes({...})      U <n> (k v)*n   updateAttributes({...})
 //     A <k> <v>       setAttribute(k, v)        R <k>           removeAttribute(k)
@@ -42,6 +42,9 @@ static QVariant val(std::istringstream &is)
     if (k == 'i') return QVariant::fromValue<qlonglong>(std::stoll(r));
     if (k == 'I') return QVariant(int(std::stoll(r)));
     if (k == 'd') return QVariant(double(std::stoll(r)));
+    if (k == 'u') return QVariant(uint(std::stoll(r)));
+    if (k == 'U') return QVariant::fromValue<qulonglong>(qulonglong(std::stoll(r)));
+    if (k == 'F') return QVariant(float(std::stoll(r)));
     if (k == 's') return unhex(r.empty() ? "-" : r);
     if (k == 'a') { int n = std::stoi(r); QVariantList l; for (int i = 0; i < n; i++) l << val(is); return l; }
     if (k == 'o') { int n = std::stoi(r); QVariantMap m; for (int i = 0; i < n; i++) { std::string kk; is >> kk; auto v = val(is); m.insert(unhex(kk), v); } return m; }
